@@ -188,13 +188,14 @@ func buildUpper(w *world, specs []spec) {
 			must(t.Put(o.addr, o.enc), "put")
 			pre = append(pre, o)
 			for _, f := range []string{fBatch, fBatchMix} {
-				m := map[oid.Address][]byte{}
+				var bo []*tobj
+				var bd [][]byte
 				for k := 0; k < 3; k++ {
 					o = mkObject("sh-"+f, s.L, s.Pattern, k)
-					m[o.addr] = o.data(f == fBatchMix && k != 1)
+					bo, bd = append(bo, o), append(bd, o.data(f == fBatchMix && k != 1))
 					pre = append(pre, o)
 				}
-				must(t.PutBatch(m), "put batch")
+				putBatchOrdered(t, blob, bo, bd)
 			}
 		}
 		must(t.Close(), "close")
